@@ -400,7 +400,7 @@ def check(F, R, tier):
 
 LEVEL_TEXT = ("Decides on all CFG paths the marker-first / registry-last creation order and reverse drop (field) order of all 8 ports, services "
               "and the node, exhaustiveness of the port cleanup dispatch, recovery coverage of every registry container and the init-permission "
-              "discipline of the storages. These make every crash point recoverable; success of the recovery itself is not decided.")
+              "discipline of the storages. These make every crash point recoverable; The open() retry loop is bounded by the timeout check on every cycle (no survivor hangs behind a dead creator). Success of the recovery itself is not decided.")
 LEVEL_NOTE = "Trusted: rustc MIR/type facts; the resource-creating callee table (rules/C04.py RES). Not decided: kernel behaviour at a crash point."
 TECHNIQUE = "static analysis: MIR dominance chains over sibling constructors, field (drop) order, match exhaustiveness, coverage of registry fields"
 
